@@ -54,7 +54,7 @@ def _stop(ki: int) -> None:
     """The worker holding key ki has reached its stage: block; the designated killer ends the run."""
     _flag(f"reached_{ki}")
     if ki == _G.killer:
-        deadline = time.monotonic() + 5
+        deadline = time.monotonic() + 8
         need = list(_G.wait_for)
         while need:
             need = [n for n in need if not os.path.exists(os.path.join(_G.ctl, n))]
